@@ -243,7 +243,8 @@ def make_declaration_grammar(g: Grammar, gx):
     g.prod("struct-declaration", [N("specifier-qualifier-list"), T("SEMI")],
            build=lambda v, gx: mk_declarations(A, gx, v[0], [dict(decl=v[0]["type"][0], init=None, bitsize=None)]),
            label="struct-declaration: specifier-qualifier-list ;  (C11 anonymous struct/union member)", note="anonymous")
-    g.prod("struct-declaration", [N("static-assert"), T("SEMI")], build=lambda v, gx: v[0],
+    # its terminating ';' is the stray-semicolon item below (same language; no node for the semicolon)
+    g.prod("struct-declaration", [N("static-assert")], build=lambda v, gx: v[0],
            label="struct-declaration: static_assert-declaration (C11 6.7.2.1)")
     g.prod("struct-declaration", [N("pragma-directive")], build=lambda v, gx: [v[0]], label="struct-declaration: pragma [extension]")
     g.prod("struct-declaration", [T("SEMI")], build=lambda v, gx: None, label="struct-declaration: ;  [extension: stray semicolon]")
@@ -446,7 +447,9 @@ def make_declaration_grammar(g: Grammar, gx):
     g.prod("external-declaration", [N("declaration")], build=lambda v, gx: v[0], label="external-declaration: declaration")
     g.prod("external-declaration", [N("declaration-specifiers"), N("declarator[id]"), Opt(N("declaration-list")), N("compound-statement")],
            build=lambda v, gx: [funcdef(v[0][0], v[1], v[2], v[3])], label="function-definition: declaration-specifiers declarator declaration-list? compound-statement")
-    g.prod("external-declaration", [N("static-assert"), T("SEMI")], build=lambda v, gx: v[0], label="external-declaration: static_assert-declaration (C11)")
+    # C11 6.7.10 `static_assert-declaration` = static-assert ';' ; at file scope the ';' is the stray-semicolon item below
+    # (same language, no node for the semicolon)
+    g.prod("external-declaration", [N("static-assert")], build=lambda v, gx: v[0], label="external-declaration: static_assert-declaration (C11)")
     g.prod("external-declaration", [N("pragma-directive")], build=lambda v, gx: [v[0]], label="external-declaration: pragma [extension]")
     g.prod("external-declaration", [T("SEMI")], build=lambda v, gx: [], label="external-declaration: ;  [extension: stray semicolon]")
     g.nt("translation-unit", "_parse_translation_unit", opaque=lambda gx, m: [OP(m)])
